@@ -348,3 +348,9 @@ def run(chk, facts, tier):
     c19.cache_ownership(chk, facts)
     from rules import shared_getters
     shared_getters.check(chk, facts, "C01.GETTER", ["cedar_policy_core::authorizer::", "cedar_policy::api::"], 20)
+    from rules import shared_roles
+    shared_roles.check(chk, facts, "C01.ROLES",
+                       ["cedar_policy::api::Request::new", "cedar_policy_core::ast::request::Request::new", "cedar_policy_core::ast::request::Request::new_with_unknowns",
+                        "cedar_policy_core::ast::request::Request::new_unchecked", "cedar_policy_core::evaluator::Evaluator::new"],
+                       ("ast::request::Request::new", "ast::Request::new"), ("ast::request::Request", "evaluator::Evaluator"),
+                       ("cedar_policy_core::ast::request::Request::",), 20)
